@@ -118,6 +118,8 @@ func (st *state) exec(op string) (res string) {
 		return fmt.Sprintf("ev=%s len=%d", ev(e), st.p.Len())
 	case "pdrain":
 		return "ev=" + ev(st.p.Clear())
+	case "keyfor", "keypair", "keypairX", "lookupx", "unprepx", "completex":
+		return st.execNear(w)
 	case "ast":
 		return astFacts()
 	case "seq":
@@ -394,6 +396,8 @@ func main() {
 		}
 		emit("pdrain", "plru/drain")
 	}
+	// 3. the cache key on near-colliding triples (real keyFor), single flight over near-colliding groups
+	nearTier(r, out, emit, mult)
 	if tier == "thorough" {
 		// exhaustive small scope: every sequence of length <= 5 over {lookup a, lookup b, complete-ok/fail of
 		// flights 0,1, unprep a} with cache sizes 1 and 2
